@@ -26,19 +26,37 @@ CANARIES = ("CANARYX7Q", "CANARYSECRET9Z", "CanaryClassK3")
 _log = []
 
 
+def _is_evaluator_file(fn):
+    return fn.endswith(os.path.join("graphtage", "expressions.py")) or fn.endswith(os.path.join("graphtage", "constraints.py"))
+
+
 def _evaluator_is_reading():
-    """Is the nearest Python frame below the tripwire the expression evaluator (expressions.py / constraints.py)?
+    """Is the read made by the expression evaluator (expressions.py / constraints.py) - directly, or through library code it
+    called on its own behalf (a helper elsewhere in graphtage, inspect / difflib / ... of the standard library)?
     Reads an object performs on itself inside its own methods are not reads by the evaluator."""
     f = sys._getframe(2)
-    while f is not None:
+    if f is not None and f.f_code.co_filename.endswith("c19.py"):
+        f = f.f_back
+        return f is not None and _is_evaluator_file(f.f_code.co_filename)
+    # outward through frames that are neither the harness nor graphtage (standard library acting for its caller)
+    hops = 0
+    while f is not None and hops < 40:
         fn = f.f_code.co_filename
         if fn.endswith("c19.py"):
-            f = f.f_back
-            if f is None:
-                return False
-            fn = f.f_code.co_filename
-            return fn.endswith(os.path.join("graphtage", "expressions.py")) or fn.endswith(os.path.join("graphtage", "constraints.py"))
-        return fn.endswith(os.path.join("graphtage", "expressions.py")) or fn.endswith(os.path.join("graphtage", "constraints.py"))
+            return False
+        if os.sep + "graphtage" + os.sep in fn:
+            # any graphtage module reached before the harness: the evaluator itself or a helper it called
+            g = f
+            while g is not None:
+                gn = g.f_code.co_filename
+                if _is_evaluator_file(gn):
+                    return True
+                if gn.endswith("c19.py"):
+                    return False
+                g = g.f_back
+            return False
+        f = f.f_back
+        hops += 1
     return False
 
 
@@ -312,6 +330,11 @@ def run():
             extra.append("%s.%s" % (base, mem))
     extra += ['"{0._x}".format(m)', 'len(m)', 'm == d', 'list(m)', 'sorted(mp)', 'm.get("k")._x', 'mp.get("k").pub._x', 'd.__class__',
               'm.__class__', 'mp.__class__.__name__']
+    # members that do NOT exist (typing errors of public names): the error path of member access is evaluation too
+    for base in ("s", "t", "from", "to", "n", "m", "mp", "s.pub", "lst[0]", 'd["k"]', "tup[0]"):
+        for mem in ("pubb", "pu", "valu", "values2", "ke", "kee", "methodd", "obj", "nam", "x", "X", "geet", "itemz"):
+            extra.append("%s.%s" % (base, mem))
+    extra += ['len(s.valu) > 3', 's.pub.valu == 1', 'from.kee == "foo"', 'str(s.nmae)', 's.pubb._x', 's.valu.pub']
     r = rng("c19")
     if t != "quick":
         toks = ["._x", ".pub", ".format", "(", ")", "[", "]", '"{0._x}"', "s", "lst", ",", " ", ".__class__", "getattr", "0"]
@@ -370,8 +393,8 @@ def run():
                 "non-trivial = the evaluation resolved a name or read an attribute"
                 % (depth, "" if t == "quick" else " and 20 000 token-level mutations"))
     chk.assumptions = ["the vocabulary is the harness's: an escape route through a construct outside the grammar is not found",
-                       "a read counts when the nearest Python frame is the evaluator (expressions.py / constraints.py); reads "
-                       "an object performs inside its own methods do not",
+                       "a read counts when it is made by the evaluator (expressions.py / constraints.py) or by library code it called on its "
+                       "own behalf (graphtage helpers, standard library); reads an object performs inside its own methods do not",
                        "__class__ reads are exempt (the evaluator's isinstance checks cause them) and covered by canaries"]
     return chk.finish()
 
